@@ -15,37 +15,33 @@
        read-locked extension pre-checks.  StepP is the deterministic step function of one importing
        process; which process moves is the only nondeterminism.
 
-   Abstract files:  FD[id] = [pkg, syms, exts, deps]
+   Abstract files:  FDOf(id) = [pkg, syms, exts, deps]
        pkg   sequence of package name components  (<<>> = no package)
        syms  set of [n |-> full name (sequence of components), k |-> kind]
        exts  sequence (declaration order) of [e |-> extendee full name, t |-> tag, ep |-> extendee's package]
        deps  sequence of file ids (imports, in order)
    Table:  [pkgs |-> set of registered package names, syms |-> name :> [f, k],
             exts |-> <<extendee, tag>> :> file, files |-> set of imported file ids]            *)
-EXTENDS Naturals, Sequences, FiniteSets, TLC, SymbolsUniverse
+EXTENDS Naturals, Sequences, FiniteSets, TLC, SymbolsFD
 
-(* file id -> abstract file.  A definition, not a CONSTANT: TLC re-evaluates substituted constants at
-   every use, and caches constant-level definitions. *)
-FD == UFD
+(* SymbolsFD (FileIds, FDOf) is the universe of SymbolsUniverse.tla, evaluated once by TLC (MCSymbolsGen)
+   and written out as literal TLA+ by the engine: TLC does not reliably cache computed constant-level
+   tables of an extended module, and the universe is looked up in every step.  The MC modules check in
+   Init that the literal module equals the universe they are configured with (FDConsistent).  *)
 
 CONSTANTS Variant    \* "orig": order of steps at the pinned commit;  "fixed": with the extension pre-check
-
-FileIds == DOMAIN FD
 
 EmptyFn == <<>>
 EmptyTable == [pkgs |-> {}, syms |-> EmptyFn, exts |-> EmptyFn, files |-> {}]
 
 Prefixes(p) == {SubSeq(p, 1, i) : i \in 1..Len(p)}
-
-(* per-file constants (constant-level definitions: TLC evaluates them once) *)
-FSyms    == TLCEval([f \in FileIds |-> {s.n : s \in FD[f].syms}])
-FSymFn   == TLCEval([f \in FileIds |-> [n \in FSyms[f] |-> [f |-> f, k |-> (CHOOSE s \in FD[f].syms : s.n = n).k]]])
 ExtKey(x) == <<x.e, x.t>>
-FExtKeys == TLCEval([f \in FileIds |-> {ExtKey(FD[f].exts[i]) : i \in 1..Len(FD[f].exts)}])
-FExtFn   == TLCEval([f \in FileIds |-> [k \in FExtKeys[f] |-> f]])
-FPref    == TLCEval([f \in FileIds |-> Prefixes(FD[f].pkg)])
-SymNames(f) == FSyms[f]
-ExtKeys(f) == FExtKeys[f]
+
+SymNames(f) == {s.n : s \in FDOf(f).syms}
+SymFn(f)    == [n \in SymNames(f) |-> [f |-> f, k |-> (CHOOSE s \in FDOf(f).syms : s.n = n).k]]
+ExtKeys(f)  == {ExtKey(FDOf(f).exts[i]) : i \in 1..Len(FDOf(f).exts)}
+ExtFn(f)    == [k \in ExtKeys(f) |-> f]
+PkgPrefs(f) == Prefixes(FDOf(f).pkg)
 
 -----------------------------------------------------------------------------
 (* (1) Reference semantics -- from the statement.                                          *)
@@ -57,7 +53,7 @@ Taken(T) == DOMAIN T.syms \cup T.pkgs
    package), package-vs-symbol collision (a prefix of f's package is a non-package symbol),
    extension-number collision.  *)
 NameCollision(T, f) == \E n \in SymNames(f) : n \in Taken(T)
-PkgCollision(T, f)  == \E p \in FPref[f] : p \in DOMAIN T.syms
+PkgCollision(T, f)  == \E p \in PkgPrefs(f) : p \in DOMAIN T.syms
 ExtCollision(T, f)  == \E k \in ExtKeys(f) : k \in DOMAIN T.exts
 Collides(T, f) == NameCollision(T, f) \/ PkgCollision(T, f) \/ ExtCollision(T, f)
 
@@ -67,9 +63,9 @@ CollisionKinds(T, f) ==
   (IF ExtCollision(T, f) THEN {"extension"} ELSE {})
 
 Commit(T, f) ==
-  [pkgs  |-> T.pkgs \cup FPref[f],
-   syms  |-> T.syms @@ FSymFn[f],      \* (never overlapping here; @@ keeps the left value)
-   exts  |-> T.exts @@ FExtFn[f],
+  [pkgs  |-> T.pkgs \cup PkgPrefs(f),
+   syms  |-> T.syms @@ SymFn(f),      \* (never overlapping here; @@ keeps the left value)
+   exts  |-> T.exts @@ ExtFn(f),
    files |-> T.files \cup {f}]
 
 (* Import(f): nothing if already imported; the imports of f are imported first (each is an Import
@@ -81,7 +77,7 @@ RefImportSeq(T, fs) ==
        IN IF r.ok THEN RefImportSeq(r.t, Tail(fs)) ELSE r
 RefImport(T, f) ==
   IF f \in T.files THEN [t |-> T, ok |-> TRUE]
-  ELSE LET d == RefImportSeq(T, FD[f].deps)
+  ELSE LET d == RefImportSeq(T, FDOf(f).deps)
        IN IF ~d.ok THEN d
           ELSE IF Collides(d.t, f) THEN [t |-> d.t, ok |-> FALSE]
           ELSE [t |-> Commit(d.t, f), ok |-> TRUE]
@@ -94,12 +90,12 @@ AcceptableSeq(T, fs) ==
   IF fs = <<>> THEN {T}
   ELSE LET r == RefImport(T, Head(fs))
        IN {T} \cup (IF r.ok THEN AcceptableSeq(r.t, Tail(fs)) ELSE Acceptable(T, Head(fs)))
-Acceptable(T, f) == AcceptableSeq(T, FD[f].deps)
+Acceptable(T, f) == AcceptableSeq(T, FDOf(f).deps)
 
 (* Transitive imports. *)
 RECURSIVE Closure(_)
 Closure(F) ==
-  LET G == F \cup UNION {{FD[f].deps[i] : i \in 1..Len(FD[f].deps)} : f \in F}
+  LET G == F \cup UNION {{FDOf(f).deps[i] : i \in 1..Len(FDOf(f).deps)} : f \in F}
   IN IF G = F THEN F ELSE Closure(G)
 
 (* C16, "compiling them together finds a collision": two different files of the set define the same
@@ -107,8 +103,8 @@ Closure(F) ==
    message with the same number.  *)
 PairCollides(f, g) ==
   \/ SymNames(f) \cap SymNames(g) # {}
-  \/ SymNames(f) \cap Prefixes(FD[g].pkg) # {}
-  \/ SymNames(g) \cap Prefixes(FD[f].pkg) # {}
+  \/ SymNames(f) \cap PkgPrefs(g) # {}
+  \/ SymNames(g) \cap PkgPrefs(f) # {}
   \/ ExtKeys(f) \cap ExtKeys(g) # {}
 UnionHasCollision(F) == \E f, g \in Closure(F) : f # g /\ PairCollides(f, g)
 
@@ -125,8 +121,14 @@ Compilable(f) == RefImport(EmptyTable, f).ok
    pc of the active frame names the NEXT critical section:
      "pkgR" i   importPackage(component i): look under RLock
      "pkgW" i   importPackage(component i): re-check and register under Lock
-     "already"  read pkg.files under RLock
-     "xchk" i   (fixed) read-locked check that extension i is not registered yet
+     "already"  read pkg.files under RLock  (fixed: the package is looked up without registering it;
+                if it is not registered nothing else is read -- observation "nopkg"; the walk down the
+                package trie and the read of the files map are taken as one step: registrations are
+                monotone, so the step is linearised at its last read)
+     "xchk" i   (fixed) read-locked check that extension i is not registered yet (not for extensions of
+                messages the file declares itself)
+     "recheck"  (fixed) after a taken number: the already-imported read again -- if the file is in the
+                table now, a concurrent import of the same file took the number and Import returns nil
      "commit"   importFile / importResult: check + commit under the package's write lock
      "ext" i    addExtension(i) under the extendee package's write lock
    Steps that touch no shared state (pushing a frame for a dependency, returning) are folded into
@@ -137,9 +139,9 @@ Top(st) == st[Len(st)]
 Pop(st) == SubSeq(st, 1, Len(st) - 1)
 SetTop(st, fr) == [st EXCEPT ![Len(st)] = fr]
 
-NPkg(f) == Len(FD[f].pkg)
-NExt(f) == Len(FD[f].exts)
-NDep(f) == Len(FD[f].deps)
+NPkg(f) == Len(FDOf(f).pkg)
+NExt(f) == Len(FDOf(f).exts)
+NDep(f) == Len(FDOf(f).deps)
 
 (* first critical section of Import(f) *)
 Entry(f) ==
@@ -149,12 +151,13 @@ Entry(f) ==
 (* after the package components are done *)
 AfterPkgs(f) == IF Variant = "fixed" THEN Frame(f, "commit", 0) ELSE Frame(f, "already", 0)
 (* after the dependencies are done *)
-AfterDeps(f) ==
-  IF Variant = "fixed"
-  THEN IF NExt(f) > 0 THEN Frame(f, "xchk", 1)
-       ELSE IF NPkg(f) = 0 THEN Frame(f, "commit", 0) ELSE Frame(f, "pkgR", 1)
-  ELSE Frame(f, "commit", 0)
 AfterXchk(f) == IF NPkg(f) = 0 THEN Frame(f, "commit", 0) ELSE Frame(f, "pkgR", 1)
+(* the pre-check skips extensions of messages the file declares itself (static) *)
+OwnExt(f, i) == FDOf(f).exts[i].e \in SymNames(f)
+XchkFrom(f, i) ==
+  LET js == {j \in i..NExt(f) : ~OwnExt(f, j)}
+  IN IF js = {} THEN AfterXchk(f) ELSE Frame(f, "xchk", CHOOSE j \in js : \A k \in js : j <= k)
+AfterDeps(f) == IF Variant = "fixed" THEN XchkFrom(f, 1) ELSE Frame(f, "commit", 0)
 
 (* Norm: resolve local control flow until the active frame is at a critical section, or the
    process has nothing left.  pc "deps" i = about to Import dependency i;  "ret" = Import returns nil. *)
@@ -166,7 +169,7 @@ Norm(P) ==
   ELSE LET fr == Top(P.stack) IN
     CASE fr.pc = "deps" ->
            IF fr.i <= NDep(fr.f)
-           THEN Norm([P EXCEPT !.stack = Append(P.stack, Entry(FD[fr.f].deps[fr.i]))])
+           THEN Norm([P EXCEPT !.stack = Append(P.stack, Entry(FDOf(fr.f).deps[fr.i]))])
            ELSE Norm([P EXCEPT !.stack = SetTop(P.stack, AfterDeps(fr.f))])
       [] fr.pc = "ret" ->
            IF Len(P.stack) = 1
@@ -197,14 +200,14 @@ StepP(T, P) ==
       f  == fr.f
   IN
   CASE fr.pc = "pkgR" ->
-         LET n == SubSeq(FD[f].pkg, 1, fr.i) IN
+         LET n == SubSeq(FDOf(f).pkg, 1, fr.i) IN
          IF n \in T.pkgs
          THEN [t |-> T, p |-> Goto(P, NextPkgFrame(f, fr.i)), lab |-> Lab("pkgR", f, n, 0, "pkg", NoAdd)]
          ELSE IF n \in DOMAIN T.syms
          THEN [t |-> T, p |-> FailP(P), lab |-> Lab("pkgR", f, n, 0, "sym", NoAdd)]
          ELSE [t |-> T, p |-> Goto(P, Frame(f, "pkgW", fr.i)), lab |-> Lab("pkgR", f, n, 0, "none", NoAdd)]
     [] fr.pc = "pkgW" ->
-         LET n == SubSeq(FD[f].pkg, 1, fr.i) IN
+         LET n == SubSeq(FDOf(f).pkg, 1, fr.i) IN
          IF n \in T.pkgs
          THEN [t |-> T, p |-> Goto(P, NextPkgFrame(f, fr.i)), lab |-> Lab("pkgW", f, n, 0, "pkg", NoAdd)]
          ELSE IF n \in DOMAIN T.syms
@@ -213,26 +216,36 @@ StepP(T, P) ==
                p |-> Goto(P, NextPkgFrame(f, fr.i)),
                lab |-> Lab("pkgW", f, n, 0, "none", [NoAdd EXCEPT !.pk = {n}])]
     [] fr.pc = "already" ->
-         IF f \in T.files
+         IF Variant = "fixed" /\ NPkg(f) > 0 /\ FDOf(f).pkg \notin T.pkgs
+         THEN (* the package is not registered, so the file cannot be: no lock is taken on a files map *)
+              [t |-> T, p |-> Goto(P, Frame(f, "deps", 1)), lab |-> Lab("already", f, <<>>, 0, "nopkg", NoAdd)]
+         ELSE IF f \in T.files
          THEN [t |-> T, p |-> Goto(P, Frame(f, "ret", 0)), lab |-> Lab("already", f, <<>>, 0, "yes", NoAdd)]
          ELSE [t |-> T, p |-> Goto(P, Frame(f, "deps", 1)), lab |-> Lab("already", f, <<>>, 0, "no", NoAdd)]
+    [] fr.pc = "recheck" ->
+         IF NPkg(f) > 0 /\ FDOf(f).pkg \notin T.pkgs
+         THEN [t |-> T, p |-> FailP(P), lab |-> Lab("already", f, <<>>, 0, "nopkg", NoAdd)]
+         ELSE IF f \in T.files
+         THEN [t |-> T, p |-> Goto(P, Frame(f, "ret", 0)), lab |-> Lab("already", f, <<>>, 0, "yes", NoAdd)]
+         ELSE [t |-> T, p |-> FailP(P), lab |-> Lab("already", f, <<>>, 0, "no", NoAdd)]
     [] fr.pc = "xchk" ->
-         LET x == FD[f].exts[fr.i] IN
+         LET x == FDOf(f).exts[fr.i] IN
          IF ExtKey(x) \in DOMAIN T.exts
-         THEN [t |-> T, p |-> FailP(P), lab |-> Lab("xchk", f, x.e, x.t, "dup", NoAdd)]
+         THEN (* taken: by another file, or by a concurrent import of this very file -- look again *)
+              [t |-> T, p |-> Goto(P, Frame(f, "recheck", 0)), lab |-> Lab("xchk", f, x.e, x.t, "dup", NoAdd)]
          ELSE [t |-> T,
-               p |-> Goto(P, IF fr.i < NExt(f) THEN Frame(f, "xchk", fr.i + 1) ELSE AfterXchk(f)),
+               p |-> Goto(P, XchkFrom(f, fr.i + 1)),
                lab |-> Lab("xchk", f, x.e, x.t, "ok", NoAdd)]
     [] fr.pc = "commit" ->
          IF f \in T.files
          THEN [t |-> T, p |-> Goto(P, Frame(f, "ret", 0)), lab |-> Lab("commit", f, <<>>, 0, "dup", NoAdd)]
          ELSE IF \E n \in SymNames(f) : n \in DOMAIN T.syms \/ n \in T.pkgs
          THEN [t |-> T, p |-> FailP(P), lab |-> Lab("commit", f, <<>>, 0, "fail", NoAdd)]
-         ELSE [t |-> [T EXCEPT !.syms = T.syms @@ FSymFn[f], !.files = T.files \cup {f}],
+         ELSE [t |-> [T EXCEPT !.syms = T.syms @@ SymFn(f), !.files = T.files \cup {f}],
                p |-> Goto(P, IF NExt(f) > 0 THEN Frame(f, "ext", 1) ELSE Frame(f, "ret", 0)),
                lab |-> Lab("commit", f, <<>>, 0, "ok", [NoAdd EXCEPT !.sy = SymNames(f)])]
     [] fr.pc = "ext" ->
-         LET x == FD[f].exts[fr.i] IN
+         LET x == FDOf(f).exts[fr.i] IN
          IF ExtKey(x) \in DOMAIN T.exts
          THEN [t |-> T, p |-> FailP(P), lab |-> Lab("addExt", f, x.e, x.t, "dup", NoAdd)]
          ELSE [t |-> [T EXCEPT !.exts = T.exts @@ (ExtKey(x) :> f)],
